@@ -146,8 +146,8 @@ def run(ctx):
     c = rr.calls_to(lambda f: M.callee_str(f) == RI)
     ctx.ob("R04.3", "deadline-passed-unchanged", len(c) == 1 and Tr.operand(c[0][1]["args"][E.params["deadline"] - 1]) == ("param", 2, rr.local_name(2)) and E.mp_term[2][3] == dl, rr.loc(0), "the deadline reaches maybe_poll unchanged")
     lt = prog.one("communicate::Communicator::limit_time")
-    st = stores_to_field(lt, "time_limit", "communicate::Communicator")
-    ok = len(st) == 1 and M.Terms(lt).rvalue(st[0][2]["r"]) == ("agg", ("adt", "std::option::Option", "Some"), (("param", 2, lt.local_name(2)),))
+    rf = builder_result_fields(lt, "communicate::Communicator")
+    ok = rf is not None and set(rf[0]) == {"time_limit"} and rf[0]["time_limit"] == ("agg", ("adt", "std::option::Option", "Some"), (("param", 2, lt.local_name(2)),))
     ctx.ob("R04.3", "limit_time.stores-Some(arg)", ok, lt.loc(0), "limit_time stores Some(time)")
     pc = mp.calls_to(lambda f: M.callee_str(f) == "posix::poll")
     ok = len(pc) == 1
@@ -295,8 +295,13 @@ def run(ctx):
     # ---- R04.5 partial results travel with the error ------------------------------------------------------------------
     r0 = Tr.local(0)
     good = r0[0] == "agg" and r0[1] == "tuple" and len(r0[2]) == 2
-    conds = [bb for bb in rr.live_blocks() if rr.blocks[bb]["term"]["k"] == "switch" and not (rr.blocks[bb]["term"]["d"]["k"] in ("copy", "move") and rr.locals[rr.blocks[bb]["term"]["d"]["p"]["l"]]["ty"] == "bool" and not rr.locals[rr.blocks[bb]["term"]["d"]["p"]["l"]].get("name"))]
-    ctx.ob("R04.5", "capture-built-unconditionally", good and not conds, rr.loc(0), "RawCommunicator::read builds (error, (out, err)) on one straight path — the captured data is returned whether or not an error occurred")
+    # no decision in RawCommunicator::read depends on whether read_into failed: the captured pair is built the same way on success and on error
+    ri_call = lambda u: u[0] == "call" and u[1] == "communicate::raw::RawCommunicator::read_into"
+    conds = [bb for bb in rr.live_blocks() if rr.blocks[bb]["term"]["k"] == "switch" and M.contains(M.switch_term(rr, Tr, bb), ri_call)]
+    # ... and the pair sits next to the error in the one value returned
+    pair_ok = good and M.noref(r0[2][1])[0] == "agg" and M.noref(r0[2][1])[1] == "tuple" and M.contains(r0[2][0], ri_call)
+    ctx.ob("R04.5", "capture-built-unconditionally", pair_ok and not conds, rr.loc(conds[0] if conds else 0),
+           "RawCommunicator::read returns (error-of-read_into, (out, err)) and takes no branch on that error — the captured data is returned whether or not an error occurred (branches on the result: %s)" % conds)
     cr0 = None
     for (bb, si, v, r) in result_variants(cr, M.Explore(cr)):
         if v == "Err":
